@@ -458,6 +458,9 @@ def main():
             changed.append(name)
     print("gen: %d enums, %d classes, %d schemes; rewritten: %s" % (
         len(d["enums"]), len(d["classes"]), len(d["schemes"]), changed or "none"))
+    # method bodies -> PyIR terms (Generated/Bodies.lean)
+    from . import gen_bodies
+    gen_bodies.main()
     return d
 
 
